@@ -20,6 +20,27 @@ def main(run: Run):
     run_configs(run, __name__, cfgs, must_accept=True)
     from . import busadd_l1
     busadd_l1.add_to(run, ['arbiter_add'])
+    # L1, for ALL N: the fan-out statements and the busy condition issued by the real Arbiter.elaborate() (recording hardware stubs)
+    from ..pyvc.driver import discharge_all
+    from ..pyvc.engine import Unsupported
+    from ..common import BASE_ASSUMPTIONS_L1
+    try:
+        from contracts import arbiter_l1
+        obs = []
+        for f in (arbiter_l1.verify_arbiter_fanout, arbiter_l1.verify_arbiter_grant):
+            fv = f()
+            run.functions[f"amaranth_soc.{fv.qualname} [statements issued, all N]"] = f"proved ({fv.paths} paths, {len(fv.obs)} obligations)"
+            obs += fv.obs
+        run.require("wishbone.bus.Arbiter.elaborate[fan-out]::owner-address", "wishbone.bus.Arbiter.elaborate[fan-out]::owner-sees-ack",
+                    "wishbone.bus.Arbiter.elaborate[fan-out]::every-optional-signal-examined", "wishbone.bus.Arbiter.elaborate[grant]::busy-condition")
+        run.assumptions += BASE_ASSUMPTIONS_L1 + [
+            "Arbiter.elaborate contracts: Amaranth objects are recording stubs (which statements are issued for one arbitrary initiator of an "
+            "arbiter with any number of them, under which Switch/Case/If, for every combination of optional signals); their hardware meaning "
+            "is Amaranth's semantics (assumed; the per-configuration clauses check it for the generated N)"]
+        discharge_all(run, obs, timeout_ms=20000)
+    except Unsupported as e:
+        run.functions["amaranth_soc.wishbone.bus.Arbiter.elaborate [statements issued, all N]"] = f"unsupported: {e} (the per-N clauses decide)"
+        run.bounded_notes.append(f"Arbiter.elaborate statements: outside the pyvc subset on this tree ({e}); per-N clauses decide")
     from . import validation
     validation.add_to(run, ['arbiter_add'])
     return run.finish(
